@@ -8,6 +8,7 @@ import (
 	"fmt"
 	"go/ast"
 	"go/types"
+	"math/rand"
 	"strings"
 
 	"golang.org/x/tools/go/ssa"
@@ -253,6 +254,81 @@ func alwaysSucceedsTable(c *Check, r *Repo) {
 				conservative = append(conservative, t.name)
 			}
 		}()
+	}
+	// seeded random multi-rule grammars: the same rule reached along several paths
+	rng := rand.New(rand.NewSource(c.Seed + 7))
+	nGr := 250
+	if c.Tier == "thorough" {
+		nGr = 3000
+	}
+	names := []string{"R0", "R1", "R2"}
+	var gen func(depth int) *mexpr
+	gen = func(depth int) *mexpr {
+		if depth == 0 || rng.Intn(4) == 0 {
+			switch rng.Intn(6) {
+			case 0:
+				return me("es")
+			case 1, 2:
+				return &mexpr{Op: "name", S: names[rng.Intn(len(names))]}
+			case 3:
+				return &mexpr{Op: "char", S: "a"}
+			default:
+				return me("e")
+			}
+		}
+		switch rng.Intn(8) {
+		case 0, 1:
+			return me("seq", gen(depth-1), gen(depth-1))
+		case 2, 3, 4:
+			return me("alt", gen(depth-1), gen(depth-1))
+		default:
+			return me(unaryOps[rng.Intn(len(unaryOps))], gen(depth-1))
+		}
+	}
+	for g := 0; g < nGr; g++ {
+		func() {
+			defer func() {
+				if p := recover(); p != nil {
+					if u, ok := p.(undecided); ok {
+						c.Und("R-always-succeeds", fmt.Sprintf("checkAlwaysSucceedsRecursion/random grammar %d", g), "", u.msg)
+						return
+					}
+					panic(p)
+				}
+			}()
+			it := newInterp(r)
+			m := newModel(it, modelOpts{Ast: true})
+			var descr []string
+			var rules []*Obj
+			for _, nm := range names {
+				x := gen(3)
+				descr = append(descr, nm+" <- "+x.String())
+				rules = append(rules, m.addRule(nm, x.build(m), 2))
+			}
+			m.finish()
+			if fd, _ := findDecl(it, "node", "checkAlwaysSucceedsRecursion"); fd != nil {
+				it.hooks[fd] = func(it *Interp, cl *Closure, args []Value) ([]Value, bool) {
+					if nd, ok := cl.recv.(*Obj); ok {
+						if oi := m.oinfo(nd); oi != nil {
+							return []Value{oi.always}, true
+						}
+					}
+					return nil, false
+				}
+			}
+			for i, rule := range rules {
+				res := it.invoke(nil, m.method("CheckAlwaysSucceeds", rule), []Value{m.tree})
+				says, _ := res[0].(bool)
+				can := m.canFail(rule, map[*Obj]bool{})
+				n++
+				if says && can {
+					unsound = append(unsound, fmt.Sprintf("%s in {%s}", names[i], strings.Join(descr, "; ")))
+				}
+			}
+		}()
+	}
+	if len(unsound) > 6 {
+		unsound = append(unsound[:6], fmt.Sprintf("(+%d more)", len(unsound)-6))
 	}
 	_, fd := findDecl(newInterp(r), "node", "checkAlwaysSucceedsRecursion")
 	pos := ""
